@@ -1,4 +1,8 @@
 import RCE.Proofs.SearchBest
+import RCE.Model.Search
+import RCE.Proofs.MoveGen
+import RCE.Proofs.Refine
+import RCE.Proofs.BoardUndo
 /-! # C09 — every go is answered by exactly one legal bestmove, whatever the limits
 
 `Search.search` is the whole of what the search thread does for one `go`; its result carries exactly
@@ -22,7 +26,34 @@ theorem ply_restored (env : Env) (G : Game P M) (fuel : Nat) (p : P) (a b : Int)
     (h : st.ply + fuel = 256) : (ab env G fuel p a b depth st).2.ply = st.ply :=
   ply_restored' env G fuel p a b depth st h
 
+/-! ### the chess instance, end to end: the move answered is legal under the rules of chess -/
+
+open RCE RCE.Proofs.Abs RCE.Proofs.BoardWF in
+/-- the legal moves of the search's game interface are the model's legal moves -/
+theorem chess_legalMovesOf (b : Board) : legalMovesOf chessGame b = b.legalMovesPure := rfl
+
+open RCE RCE.Proofs.Abs RCE.Proofs.BoardWF in
+/-- for every legal-game position with a legal move, every `go` (any limits, clock, stop point, cache with `i16` scores):
+    the bestmove answered is, as (from, to, promotion), a legal move of the rules spec in that position -/
+theorem chess_bestmove_legal_by_the_rules (b : Board) (hl : Legal b) (g : GoLimits) (maxDepth : Option Nat)
+    (clock : Nat → Nat) (stopAtPoll : Nat) (cacheOff : Bool) (tt0 : Table Ply)
+    (hm : b.legalMovesPure ≠ []) (he : EvalBoundedFrom chessGame b) (ht : TableScoresOK tt0) :
+    ∃ m, (chessSearch b g maxDepth clock stopAtPoll cacheOff tt0).best = some m ∧
+         absMove m ∈ Rules.legalMoves (abs b) := by
+  obtain ⟨m, hb, hmem⟩ := one_legal_bestmove
+    { limits := g.toLimits b.turn, clock := clock, stopAtPoll := stopAtPoll, cacheOff := cacheOff } chessGame b maxDepth tt0
+    (by rw [chess_legalMovesOf]; exact hm) he ht
+  refine ⟨m, hb, ?_⟩
+  rw [chess_legalMovesOf] at hmem
+  have hpure := (RCE.Proofs.BoardUndo.legalMoves_pure' b hl.wf).2
+  have hex := (RCE.Proofs.MoveGen.legal_exact_of (fun b m hl hm => RCE.Proofs.Refine.make_refines' b m hl hm)
+    RCE.Proofs.MoveGen.makeKeeps b hl).1
+  have : absMove m ∈ (b.legalMoves).1.map absMove := by
+    rw [hpure]; exact List.mem_map_of_mem hmem
+  exact hex.mem_iff.mp this
+
 end RCE.Props.C09
 
 #print axioms RCE.Props.C09.one_legal_bestmove
 #print axioms RCE.Props.C09.ply_restored
+#print axioms RCE.Props.C09.chess_bestmove_legal_by_the_rules
